@@ -191,3 +191,7 @@ def run(tier: str) -> int:
         "unreachability and memory growth are runtime facts observed with weakref / gc on the real code only",
     ]
     return chk.finish()
+
+
+def replay(doc) -> int:
+    return rc.replay(PROP, doc)
